@@ -6,6 +6,11 @@ VERIF = os.path.dirname(os.path.abspath(__file__))
 
 # property id -> (level category, technique, level text, level note, design ref)
 CLAIMED = {
+    "C09": ("exploration",
+            "boundary-length workload per stack configuration with a ledger at the receiver and an MTU-error recorder under the layer under test",
+            "For ~150 stack configurations (inner MTUs 1..65536, outer MTUs at/around the 255- and 65535-part limits, every multiplexer header length, unequal multi-transport MTUs, nestings; QUIC/SSH in thorough) tells and asks of lengths 0,1,MTU-1,MTU and fragment-count boundaries must not be refused for size by any layer and arrive byte-identical, while MTU+1 and 2*MTU must be refused with the MTU error and never arrive even in part.",
+            "A <=MTU payload that is never delivered is reported as a coverage gap unless the recorder shows the inner MTU error was swallowed on every attempt; inner MTUs <= the layer's header size are not exercised.",
+            "DESIGN.md §4 C09"),
     "C01": ("exploration",
             "ledger monitor (sha256 lookup of unique self-describing payloads) inside receiver callbacks on every swarm stack, with buffer canaries and injected delays; thorough adds a -race pass",
             "All-pairs concurrent traffic on every stack and nesting; each delivered payload must be one told to this receiver, Src must name the teller and Dst the receiver; callback buffers are checksummed and scribbled, sender buffers compared and overwritten after Tell, replies go to the observed Src (also from inside the callback), some Tells carry deadlines that expire mid-write.",
